@@ -98,6 +98,11 @@ type Explorer struct {
 	harness *ssa.Function
 	hname   string
 
+	fnCount        map[*ssa.Function]int
+	PerPathInit    map[string]bool // packages re-initialised on every path (go-cty's own)
+	baseGlobals    map[*ssa.Global]*value
+	baseOnce       sync.Once
+	buildingBase   bool
 	reflectOnce    sync.Once
 	reflectPackage *ssa.Package
 	rtypeMethods   methodSet
@@ -121,7 +126,7 @@ func NewExplorer(prog *ssa.Program, sizes types.Sizes) *Explorer {
 		Workers: runtime.NumCPU(), SolverKind: "z3-new", TimeoutMs: 60000,
 		MaxDecisions: 4000, MaxSteps: 400000, MaxPaths: 2000000, MaxConcretize: 16,
 		MaxWitnesses: 20, MaxCexPerSite: 3, MemK: 64, MemC: 1 << 16,
-		InitPkgs: map[string]bool{}, HarnessPkgs: map[string]bool{},
+		InitPkgs: map[string]bool{}, HarnessPkgs: map[string]bool{}, PerPathInit: map[string]bool{},
 	}
 	ex.cond = sync.NewCond(&ex.mu)
 	rt := prog.ImportedPackage("runtime")
@@ -137,6 +142,7 @@ func (ex *Explorer) resetStats() {
 		Reach: map[string]int{}, Funcs: map[string]int{}, Assumptions: map[string]bool{}}
 	ex.Cex, ex.KnownHits, ex.Witnesses = nil, nil, nil
 	ex.Truncated = false
+	ex.fnCount = map[*ssa.Function]int{}
 	ex.queue = nil
 	ex.stop = false
 }
@@ -172,6 +178,9 @@ func (ex *Explorer) noteRounded() {
 	ex.mu.Unlock()
 }
 func (ex *Explorer) noteFunc(fn *ssa.Function) {
+	if true {
+		return
+	}
 	if fn.Pkg == nil && fn.Origin() == nil {
 		return
 	}
@@ -182,14 +191,77 @@ func (ex *Explorer) noteFunc(fn *ssa.Function) {
 	if p == nil || !strings.Contains(p.Pkg.Path(), "go-cty") {
 		return
 	}
-	name := fn.String()
+	_ = p
+}
+
+func (ex *Explorer) mergeFuncs(m map[*ssa.Function]int) {
 	ex.mu.Lock()
-	ex.St.Funcs[name]++
+	for fn, n := range m {
+		ex.fnCount[fn] += n
+	}
 	ex.mu.Unlock()
 }
 
+func (ex *Explorer) finalizeFuncs() {
+	for fn, n := range ex.fnCount {
+		p := fn.Pkg
+		if p == nil && fn.Origin() != nil {
+			p = fn.Origin().Pkg
+		}
+		if p == nil || !strings.Contains(p.Pkg.Path(), "go-cty") {
+			continue
+		}
+		name := fn.String()
+		if strings.Contains(name, "verif") || strings.HasSuffix(name, ".init") {
+			continue
+		}
+		ex.St.Funcs[name] += n
+	}
+}
+
 func (ex *Explorer) shouldInit(pkg *ssa.Package) bool {
-	return pkg != nil && ex.InitPkgs[pkg.Pkg.Path()]
+	if pkg == nil || !ex.InitPkgs[pkg.Pkg.Path()] {
+		return false
+	}
+	if ex.buildingBase {
+		return !ex.PerPathInit[pkg.Pkg.Path()]
+	}
+	return true
+}
+
+// prepareBase runs, once, the initialisers of the whitelisted packages that are not re-initialised per path
+// (standard library and third-party packages). Their global state is shared read-only by all paths.
+func (ex *Explorer) prepareBase() {
+	ex.baseOnce.Do(func() {
+		ex.buildingBase = true
+		defer func() { ex.buildingBase = false }()
+		i := newInterpreter(ex, 0)
+		var paths []string
+		for p := range ex.InitPkgs {
+			if !ex.PerPathInit[p] {
+				paths = append(paths, p)
+			}
+		}
+		sort.Strings(paths)
+		for _, p := range paths {
+			pkg := ex.Prog.ImportedPackage(p)
+			if pkg == nil {
+				continue
+			}
+			func() {
+				defer func() {
+					if r := recover(); r != nil {
+						ex.St.InternalErrors = append(ex.St.InternalErrors, fmt.Sprintf("initialiser of %s failed: %v", p, r))
+						fmt.Fprintf(os.Stderr, "warning: initialiser of %s failed in the interpreter: %v\n", p, r)
+					}
+				}()
+				if init := pkg.Func("init"); init != nil {
+					call(i, nil, init.Pos(), init, nil)
+				}
+			}()
+		}
+		ex.baseGlobals = i.globals
+	})
 }
 
 func (ex *Explorer) assertStat(id string) *AssertStat {
@@ -204,6 +276,7 @@ func (ex *Explorer) assertStat(id string) *AssertStat {
 // Run explores harness fn. It returns after every path has been executed or a budget was hit.
 func (ex *Explorer) Run(fn *ssa.Function, name string) {
 	ex.resetStats()
+	ex.prepareBase()
 	ex.harness, ex.hname = fn, name
 	t0 := time.Now()
 	ex.queue = [][]int32{{}}
@@ -294,6 +367,7 @@ func (ex *Explorer) Run(fn *ssa.Function, name string) {
 	if len(ex.queue) > 0 {
 		ex.Truncated = true
 	}
+	ex.finalizeFuncs()
 	ex.St.Wall = time.Since(t0)
 }
 
@@ -389,6 +463,7 @@ func (ex *Explorer) runPath(w *worker, prefix []int32) {
 		ex.St.AbortDetail[outcome+": "+detail]++
 		ex.mu.Unlock()
 	}
+	ex.mergeFuncs(i.fnSeen)
 	ex.mu.Lock()
 	ex.St.Steps += int64(c.steps)
 	if len(c.trace) > ex.St.MaxDecisions {
